@@ -106,6 +106,36 @@ def check_bloom(ctx, P, n, p, rng):
                           f"reload via {loader} has another geometry {where}",
                           got=(obj.number_bits, obj.number_hashes, obj.false_positive_rate, obj.estimated_elements), want=(m, k, fpr, n))
             ctx.count("bloom.reload_geometry_checks", 2)
+        if approx_m <= 20000 and isinstance(n, int) and rng.random() < 0.12:
+            # the same request on disk, at a path that is new or already holds something else (a longer / shorter / equally long
+            # file left by an earlier filter): same inputs, same geometry - for the object, its file and every reopen
+            import os
+
+            path = os.path.join(ctx.tmpdir(), f"c07-{os.getpid()}-{ctx.counters['bloom.ondisk_constructions']}.blm")
+            pre = rng.choice(["new", "longer", "longer", "shorter", "same_length"])
+            if pre == "longer":
+                old = P.BloomFilterOnDisk(path, n * rng.randint(3, 40) + 7, rng.choice([0.2, 0.05, 0.01]))
+                old.add("left-over")
+                old.close()
+            elif pre == "shorter":
+                with open(path, "wb") as fh:
+                    fh.write(bytes(P.BloomFilter(1, 0.5)))
+            elif pre == "same_length":
+                with open(path, "wb") as fh:
+                    fh.write(b"\xa5" * (f.bloom_length + 20))
+            d = P.BloomFilterOnDisk(path, n, p)
+            geo = lambda o: (o.number_bits, o.number_hashes, o.false_positive_rate, o.estimated_elements, o.bloom_length, o.elements_added)
+            ctx.check(geo(d) == (m, k, fpr, n, f.bloom_length, 0), f"on-disk construction (path state: {pre}) has another geometry than the in-memory one {where}", got=geo(d), want=(m, k, fpr, n, f.bloom_length, 0))
+            d.close()
+            ctx.check(os.path.getsize(path) == f.bloom_length + 20, f"backing file of a newly constructed on-disk filter (path state: {pre}) has the wrong length {where}",
+                      got=os.path.getsize(path), want=f.bloom_length + 20)
+            for how, o in (("on-disk reopen", P.BloomFilterOnDisk(path)), ("filepath load", P.BloomFilter(filepath=path))):
+                ctx.check(geo(o) == (m, k, fpr, n, f.bloom_length, 0), f"{how} of a newly constructed on-disk filter (path state: {pre}) has another geometry {where}", got=geo(o))
+                if hasattr(o, "close"):
+                    o.close()
+            os.unlink(path)
+            ctx.count("bloom.ondisk_constructions")
+            ctx.count(f"bloom.ondisk_path_state.{pre}")
         if approx_m <= 3000 and rng.random() < 0.3:
             c = P.CountingBloomFilter(n, p)
             ctx.check((c.number_bits, c.number_hashes, c.false_positive_rate) == (m, k, fpr), f"counting Bloom geometry differs from plain Bloom {where}")
